@@ -73,7 +73,7 @@ EmptyM(subs) == NF(subs) = <<>>
 
 \* ---- the machine ---------------------------------------------------------------------------------
 \* mode: "fresh" nothing yet (pen (0,0)) | "moved" MoveTo pending | "open" sub-path in progress | "closed" just closed
-InitSt == [subs |-> <<>>, mode |-> "fresh", pen |-> <<0, 0>>, bad |-> FALSE]
+InitSt == [subs |-> <<>>, mode |-> "fresh", pen |-> <<0, 0>>, bad |-> FALSE, amin |-> FALSE]   \* amin: feature ArcRadiiMinimal (sticky)
 NewSub(s) == [s |-> s, pcs |-> <<>>, z |-> FALSE]
 LastOf(q) == q[Len(q)]
 SetLast(q, x) == [q EXCEPT ![Len(q)] = x]
@@ -113,6 +113,8 @@ CloseM(m, V) ==
 \* taken absolute; canonical form rx >= ry, 0 <= rot < 180 (rot = 0 for circles); radii too small for the chord are
 \* scaled up by lambda, lambda^2 = x1'^2/rx^2 + y1'^2/ry^2 (SVG F.6.6).  Exact for rot in {0,45,90,135} or circles; a
 \* call whose scaled radii are not integers is outside the model (piece <<0>> marks the state bad).
+RECURSIVE GCD(_, _)
+GCD(a, b) == IF b = 0 THEN a ELSE GCD(b, a % b)
 Lam2(pen, rx, ry, rot, e) ==      \* <<num, den>> of lambda^2
   LET dx == pen[1] - e[1]  dy == pen[2] - e[2] IN
   CASE rx = ry   -> <<dx*dx + dy*dy, 4*rx*rx>>
@@ -131,12 +133,25 @@ ArcPiece(pen, rx0, ry0, rot0, fl, e) ==
            l2  == Lam2(pen, rx, ry, rot, e) IN
        IF l2[2] = 0 THEN <<0>>
        ELSE IF l2[1] <= l2[2] THEN <<16, rx, ry, rot * 1000, fl, e[1], e[2]>>
-       ELSE LET q == ISqrtLo(l2[1] * l2[2]) IN
-            IF q * q # l2[1] * l2[2] \/ (rx * q) % l2[2] # 0 \/ (ry * q) % l2[2] # 0 THEN <<0>>
-            ELSE <<16, (rx * q) \div l2[2], (ry * q) \div l2[2], rot * 1000, fl, e[1], e[2]>>
-ArcToM(m, a) == AddPiece(m, ArcPiece(m.pen, a[1], a[2], a[3], a[4], <<a[5], a[6]>>))
-\* the chord equals the (unscaled) diameter along it: the centre is an ill-conditioned function of the radii
-ArcMinimal(pen, pc) == pc[1] = 16 /\ LET l2 == Lam2(pen, pc[2], pc[3], pc[4] \div 1000, EndOf(pc)) IN l2[1] >= l2[2]
+       ELSE LET g  == GCD(l2[1], l2[2])                 \* lambda = sqrt(num/den): both reduced terms must be squares
+                n  == l2[1] \div g   d == l2[2] \div g
+                qn == ISqrtLo(n)     qd == ISqrtLo(d) IN
+            IF qn * qn # n \/ qd * qd # d \/ (rx * qn) % qd # 0 \/ (ry * qn) % qd # 0 THEN <<0>>
+            ELSE <<16, (rx * qn) \div qd, (ry * qn) \div qd, rot * 1000, fl, e[1], e[2]>>
+\* the radii given are at most just large enough for the chord (lambda >= 1): the builder scales them to the minimal
+\* ellipse, whose centre is an ill-conditioned function of the radii (feature ArcRadiiMinimal)
+ArcIsMinimal(pen, rx0, ry0, rot0, e) ==
+  LET rxa == Abs(rx0)  rya == Abs(ry0) IN
+  IF rxa = 0 \/ rya = 0 \/ pen = e THEN FALSE
+  ELSE LET sw  == rxa < rya
+           rx  == IF sw THEN rya ELSE rxa
+           ry  == IF sw THEN rxa ELSE rya
+           rot == IF rx = ry THEN 0 ELSE ((IF sw THEN rot0 + 90 ELSE rot0) % 180)
+           l2  == Lam2(pen, rx, ry, rot, e) IN
+       l2[2] # 0 /\ l2[1] >= l2[2]
+ArcAdd(m, rx, ry, rot, fl, e) ==
+  [AddPiece(m, ArcPiece(m.pen, rx, ry, rot, fl, e)) EXCEPT !.amin = m.amin \/ ArcIsMinimal(m.pen, rx, ry, rot, e)]
+ArcToM(m, a) == ArcAdd(m, a[1], a[2], a[3], a[4], <<a[5], a[6]>>)
 
 \* Arc(rx, ry, rot, theta0, theta1): centre-form arc starting at the pen; multiples of 90 degrees only (lattice).
 Rot90(p, k) == CASE k % 4 = 0 -> p [] k % 4 = 1 -> <<0 - p[2], p[1]>> [] k % 4 = 2 -> <<0 - p[1], 0 - p[2]>> [] OTHER -> <<p[2], 0 - p[1]>>
@@ -153,7 +168,7 @@ ArcM(m, a) ==
       c     == <<start[1] - p0[1], start[2] - p0[2]>>
       opp   == <<c[1] - p0[1], c[2] - p0[2]>>
       endp  == <<c[1] + p1[1], c[2] + p1[2]>>
-      arc(mm, e) == AddPiece(mm, ArcPiece(mm.pen, rx, ry, rot, fl, e))
+      arc(mm, e) == ArcAdd(mm, rx, ry, rot, fl, e)
       full  == IF dth >= 360 THEN arc(arc(m, opp), start) ELSE m
   IN IF dth >= 360 /\ dth % 360 = 0 THEN full ELSE arc(full, endp)
 
@@ -174,7 +189,7 @@ OperandM(k) ==
   LET s == OperandSubs(k) IN
   IF s = <<>> THEN InitSt
   ELSE LET l == LastOf(s) IN
-       [subs |-> s, bad |-> FALSE,
+       [subs |-> s, bad |-> FALSE, amin |-> FALSE,
         mode |-> IF l.z THEN "closed" ELSE IF l.pcs = <<>> THEN "moved" ELSE "open",
         pen  |-> IF l.z \/ l.pcs = <<>> THEN l.s ELSE EndOf(LastOf(l.pcs))]
 
@@ -291,7 +306,9 @@ Features(h, m) ==
     cubeflat |-> AnyPiece(nf, LAMBDA sub, s, pc : pc[1] = 8 /\ Cross(s, EndOf(pc), <<pc[2], pc[3]>>) = 0 /\ Cross(s, EndOf(pc), <<pc[4], pc[5]>>) = 0),
     curves   |-> AnyPiece(nf, LAMBDA sub, s, pc : pc[1] \in {4, 8}),
     arcs     |-> AnyPiece(nf, LAMBDA sub, s, pc : pc[1] = 16),
-    arcmin   |-> AnyPiece(nf, LAMBDA sub, s, pc : ArcMinimal(s, pc)),
+    arcmin   |-> m.amin,
+    \* ArcChordEqualsRx: unrotated arc with a horizontal chord whose length equals rx (trigger of defect #21 in ellipseToCenter)
+    arcchordrx |-> AnyPiece(nf, LAMBDA sub, s, pc : pc[1] = 16 /\ pc[4] = 0 /\ s[2] = EndOf(pc)[2] /\ Abs(EndOf(pc)[1] - s[1]) = pc[2]),
     spike    |-> \E j \in 1..Len(nf) : nf[j].z /\ Len(nf[j].pcs) <= 2 /\ \A i \in 1..Len(nf[j].pcs) : nf[j].pcs[i][1] = 2 ]
 Scenario == [hist |-> hist, exp |-> SubsJson(NF(st.subs)), pen |-> st.pen, f |-> Features(hist, st)]
 EmitInv == (EmitFrom > 0 /\ Len(hist) >= EmitFrom) => PrintT("@@" \o ToJson(Scenario))
@@ -340,22 +357,25 @@ SubsOf(sm, i, acc, pen, open) ==
 StreamSubs(sm) == SubsOf(sm, 1, <<>>, <<0, 0>>, FALSE)
 
 \* geometry verdict: "ok", or the name of the known deviation model that explains the stream, or "other"
-Ks == SUBSET (1..3)
+Ks == SUBSET (1..6)
 DefectModels == <<{"b32"}, {"bApp"}, {"b32", "bApp"}>>
 ModelName(V) == IF V = {"b32"} THEN "moveto-close-forgets-moveto" ELSE IF V = {"bApp"} THEN "append-forgets-moveto"
                 ELSE "moveto-close-forgets-moveto+append-forgets-moveto"
 GeomVerdict(h, sm) ==
   LET obs == NF(StreamSubs(sm))
       m0  == Meaning(h, {})
-      RECURSIVE Try(_)
-      Try(k) == IF k > Len(DefectModels) THEN "other"
-                ELSE LET mk == Meaning(h, DefectModels[k]) IN
-                     IF obs = NF(mk.subs) THEN ModelName(DefectModels[k])
-                     ELSE IF \E K \in Ks : K # {} /\ obs = NFK(mk.subs, K) THEN ModelName(DefectModels[k]) \o "+reversal-merged"
-                     ELSE Try(k + 1) IN
+      RECURSIVE Exact(_)          \* a defect model explains the stream exactly
+      Exact(k) == IF k > Len(DefectModels) THEN ""
+                  ELSE IF obs = NF(Meaning(h, DefectModels[k]).subs) THEN ModelName(DefectModels[k]) ELSE Exact(k + 1)
+      RECURSIVE WithRev(_)        \* ... or together with merged reversals
+      WithRev(k) == IF k > Len(DefectModels) THEN "other"
+                    ELSE LET mk == Meaning(h, DefectModels[k]) IN
+                         IF \E K \in Ks : K # {} /\ obs = NFK(mk.subs, K) THEN ModelName(DefectModels[k]) \o "+reversal-merged"
+                         ELSE WithRev(k + 1) IN
   IF obs = NF(m0.subs) THEN "ok"
+  ELSE IF Exact(1) # "" THEN Exact(1)
   ELSE IF \E K \in Ks : K # {} /\ obs = NFK(m0.subs, K) THEN "reversal-merged"
-  ELSE Try(1)
+  ELSE WithRev(1)
 
 \* ---- shape constructors (shapes.go) ---------------------------------------------------------------
 \* A shape call is the history <<Call("Shape:<Name>", args)>>; lengths are lattice integers (the driver chooses the
